@@ -20,11 +20,11 @@ func (s *PfcpServer) ServeReport(sr *report.SessReport) {
 		return
 	}
 
+	// a node that cannot be sent a report request (its Node ID does not resolve
+	// for IPv4) is not told; packets handed up for its sessions are buffered
+	// all the same
 	addr := fmt.Sprintf("%s:%d", sess.rnode.ID, factory.UpfPfcpDefaultPort)
-	laddr, err := net.ResolveUDPAddr("udp4", addr)
-	if err != nil {
-		return
-	}
+	laddr, addrErr := net.ResolveUDPAddr("udp4", addr)
 
 	var usars []report.USAReport
 	for _, rpt := range sr.Reports {
@@ -34,7 +34,7 @@ func (s *PfcpServer) ServeReport(sr *report.SessReport) {
 			if r.Action&report.APPLY_ACT_BUFF != 0 && len(r.BufPkt) > 0 {
 				sess.Push(r.PDRID, r.BufPkt)
 			}
-			if r.Action&report.APPLY_ACT_NOCP == 0 {
+			if r.Action&report.APPLY_ACT_NOCP == 0 || addrErr != nil {
 				return
 			}
 			err := s.serveDLDReport(laddr, sr.SEID, r.PDRID)
@@ -49,7 +49,7 @@ func (s *PfcpServer) ServeReport(sr *report.SessReport) {
 		}
 	}
 
-	if len(usars) > 0 {
+	if len(usars) > 0 && addrErr == nil {
 		err := s.serveUSAReport(laddr, sr.SEID, usars)
 		if err != nil {
 			s.log.Errorln(err)
